@@ -674,7 +674,7 @@ type poolGhost struct {
 
 func newGhost() *ghostState {
 	return &ghostState{pools: map[*value]*poolGhost{}, mutexHeld: map[*value]bool{}, released: map[*value]bool{},
-		live: map[*value]bool{}, ctxCancelled: map[*value]bool{}, poolMode: 1}
+		live: map[*value]bool{}, ctxCancelled: map[*value]bool{}, poolMode: 1, fixedMapOrder: true}
 }
 
 func (e *Engine) resetPath() {
